@@ -80,6 +80,10 @@ func vC01Mk[T vScalar]() (t *Dense, want []T, shape []int, ok bool) {
 		if nshape[0] == 1 && len(nshape) > 1 {
 			nshape = nshape[1:]
 		}
+		// a slice that leaves exactly one element yields a scalar-shaped view (coordinates: none)
+		if vProd(nshape) == 1 {
+			nshape = []int{}
+		}
 		shape, want = nshape, nw
 		t = v.(*Dense)
 	}
